@@ -11,7 +11,81 @@ from fractions import Fraction
 import vlib
 
 PROOF_MODULES = []   # the .vo files of coq/C24 are compiled directly (see the report); not yet in _CoqProject
-OBLIGATIONS = []
+OBLIGATIONS = [
+    "C24/P_add_dense_dense_spec.v",
+    "C24/P_elementwise_mul_dense_dense_spec.v",
+    "C24/P_add_dense_scalar_spec.v",
+    "C24/P_mul_dense_scalar_spec.v",
+    "C24/P_transpose_dense_spec.v",
+    "C24/P_mul_dense_dense_spec.v",
+    "C24/P_mul_dense_dense_fin.v",
+    "C24/P_row_exchange_dense_spec.v",
+    "C24/P_row_mul_scalar_dense_spec.v",
+    "C24/P_row_add_row_dense_spec.v",
+    "C24/P_column_exchange_dense_spec.v",
+    "C24/P_mul_scalar_inplace_spec.v",
+    "C24/P_eye_spec.v",
+    "C24/P_submatrix_dense_step_spec.v",
+    "C24/P_row_insert_spec.v",
+    "C24/P_col_insert_spec.v",
+    "C24/P_row_join_spec.v",
+    "C24/P_col_join_spec.v",
+    "C24/P_row_del_spec.v",
+    "C24/P_col_del_spec.v",
+    "C24/P_is_symmetric_dense_spec.v",
+    "C24/P_trace_spec.v",
+    "C24/P_inverse_unique.v",
+    "C24/P_solve_unique.v",
+    "C24/P_back_substitution_spec.v",
+    "C24/P_forward_substitution_spec.v",
+    "C24/P_diagonal_solve_spec.v",
+    "C24/P_row_equiv_null_sol.v",
+    "C24/P_pivoted_gauss_jordan_spec.v",
+    "C24/P_reduced_row_echelon_form_spec.v",
+    "C24/P_pffgj_spec.v",
+    "C24/P_rref_normalize_last_spec.v",
+    "C24/P_rref_unique_equiv.v",
+    "C24/P_rref_flags_agree.v",
+    "C24/P_ffgj_solve_dichotomy.v",
+    "C24/P_inverse_gauss_jordan_dichotomy.v",
+    "C24/P_ffgj_solve_ok_nonsingular.v",
+    "C24/P_pge_spec.v",
+    "C24/P_pffge_spec.v",
+    "C24/P_LU_spec.v",
+    "C24/P_LU_dichotomy.v",
+    "C24/P_LU_complete.v",
+    "C24/P_pivoted_LU_total.v",
+    "C24/P_pivoted_LU_solve_spec.v",
+    "C24/P_inverse_pivoted_LU_spec.v",
+    "C24/P_LU_solve_guarded.v",
+    "C24/P_inverse_LU_guarded.v",
+    "C24/P_LDL_dichotomy.v",
+    "C24/P_LDL_partial_sym.v",
+    "C24/P_LDL_solve_guarded.v",
+    "C24/P_cholesky_partial_sym.v",
+    "C24/P_ffge_guarded_b.v",
+    "C24/P_fflu_solve_guarded_b.v",
+    "C24/P_inverse_fflu_guarded_b.v",
+    "C24/P_ffge_solve_guarded_b.v",
+    "C24/P_ffldu_guarded.v",
+    "C24/P_det_swap.v",
+    "C24/P_det_addrow.v",
+    "C24/P_det_row_scale.v",
+    "C24/P_det_upper_tri.v",
+    "C24/P_det_bareis_correct.v",
+    "C24/P_char_poly_1.v",
+    "C24/P_char_poly_2.v",
+    "C24/P_char_poly_3.v",
+    "C24/P_char_poly_4.v",
+    "C24/P_det_berkowitz_1.v",
+    "C24/P_det_berkowitz_2.v",
+    "C24/P_det_berkowitz_3.v",
+    "C24/P_det_berkowitz_4.v",
+    "C24/P_det_berkowitz_5.v",
+    "C24/P_LU_finite_refuted.v",
+    "C24/P_inverse_LU_refuted.v",
+    "C24/P_nonvacuous.v",
+]
 
 # ----------------------------------------------------------------------------- matrices
 PAL = [0, 0, 1, 1, -1, 2, -2, 3, -3, 4, 5, -7]
